@@ -407,7 +407,10 @@ class Kernel(Module):
 
         # Recurse, if necessary
         for sub_module_name, sub_module in self.named_sub_kernels():
-            new_kernel.__setattr__(sub_module_name, sub_module.expand_batch(new_batch_shape))
+            # Sub-kernels can be nested (e.g. in the ModuleList of an AdditiveKernel): replace them where they live
+            *parent_path, attr_name = sub_module_name.split(".")
+            parent = new_kernel.get_submodule(".".join(parent_path))
+            parent.__setattr__(attr_name, sub_module.expand_batch(new_batch_shape))
 
         return new_kernel
 
@@ -600,8 +603,16 @@ class Kernel(Module):
             new_batch_shape_len = len(self.batch_shape) - ndim_removed
             new_kernel.batch_shape = new_buffr.shape[:new_batch_shape_len]
 
+        # A kernel without parameters of its own (e.g. MultitaskKernel, or an AdditiveKernel after expand_batch)
+        # still has to update its batch shape
+        if len(self._batch_shape) and not any(True for _ in self.named_parameters(recurse=False)):
+            new_kernel.batch_shape = torch.empty(self._batch_shape, dtype=torch.bool).__getitem__(index).shape
+
         for sub_module_name, sub_module in self.named_sub_kernels():
-            new_kernel.__setattr__(sub_module_name, sub_module.__getitem__(index))
+            # Sub-kernels can be nested (e.g. in the ModuleList of an AdditiveKernel): replace them where they live
+            *parent_path, attr_name = sub_module_name.split(".")
+            parent = new_kernel.get_submodule(".".join(parent_path))
+            parent.__setattr__(attr_name, sub_module.__getitem__(index))
 
         return new_kernel
 
@@ -639,13 +650,6 @@ class AdditiveKernel(Kernel):
 
     def num_outputs_per_input(self, x1, x2):
         return self.kernels[0].num_outputs_per_input(x1, x2)
-
-    def __getitem__(self, index) -> Kernel:
-        new_kernel = deepcopy(self)
-        for i, kernel in enumerate(self.kernels):
-            new_kernel.kernels[i] = kernel.__getitem__(index)
-
-        return new_kernel
 
 
 class ProductKernel(Kernel):
@@ -696,10 +700,3 @@ class ProductKernel(Kernel):
 
     def num_outputs_per_input(self, x1: Tensor, x2: Tensor) -> int:
         return self.kernels[0].num_outputs_per_input(x1, x2)
-
-    def __getitem__(self, index) -> Kernel:
-        new_kernel = deepcopy(self)
-        for i, kernel in enumerate(self.kernels):
-            new_kernel.kernels[i] = kernel.__getitem__(index)
-
-        return new_kernel
